@@ -43,7 +43,7 @@ V_C02 == viol \cap {"registered_action_not_once", "action_twice", "later_deliver
                     "removed_action_ran_after_removal", "new_action_not_registered"} = {}
 V_C04 == viol \cap {"previous_handler_not_once", "previous_handler_wrong_arguments",
                     "previous_handler_not_chained_afterwards", "delivery_never_returned"} = {}
-V_C09 == viol \cap {"iterator_lost_the_signal"} = {}
+V_C09 == viol \cap {"iterator_lost_the_signal", "unreported_signal_without_wakeup"} = {}
 V_C10 == viol \cap {"iterator_invented_a_signal", "raw_records_not_one_per_delivery"} = {}
 V_C13 == viol \cap {"pipe_bytes_not_one_per_delivery"} = {}
 V_C15 == viol \cap {"flag_unset", "usize_flag_wrong"} = {}
